@@ -435,6 +435,10 @@ def extract_lonlat(f, lonlat, unique=False, gridded=None, method='nn',
 
             newdims = tuple(newdims)
             newv = extractfunc(v, thiscoords)
+            if isinstance(v, np.ndarray) and np.may_share_memory(newv, v):
+                # a variable without latitude or longitude: a copy, the
+                # result shares nothing with the input
+                newv = newv.copy()
 
             propd = dict([(ak, getattr(v, ak)) for ak in v.ncattrs()])
             nv = outf.createVariable(
